@@ -217,3 +217,392 @@ Theorem hubbard_atom_four_blocks_value :
   assembled_E Qcanon.Qc ED4 = hub_E /\ assembled_U Qcanon.Qc QcS S4 ED4 = hub_U.
 Proof. exact SpineExamples.hub_value4_nonzero. Qed.
 Print Assumptions hubbard_atom_four_blocks_value.
+
+(** * Stage 2b: the two remaining inter-layer hypotheses DISCHARGED (PV.SpineBridge, SpineBridgeHam, SpineBridgeMain).
+
+    [bridge N c] is the HPart.classification with the block lists and the StateBlockIndex of the Symm model's classification c
+    (the output of Symm.sc_compute = StatesClassification::compute on the quantum numbers of the accepted operators).
+      partition_ok (bridge N c)   from Properties_C07.C07_partition_exact        [bridge_partition_ok_from_C07]
+      op_ok (bridge N c) o pairs  from Properties_C07.C07_single_target, first conclusion (block equality is preserved and reflected
+                                  by c_i, c^+_j, c^+_i c_j when the accepted operators shift uniformly); the pairs HPart.fo_prepare
+                                  records are computed ([bridge_fo_prepare_value]) and are those of Symm.prepare
+                                  (C07_single_target, second conclusion)           [bridge_op_ok_from_C07, bridge_pairs_are_symm_prepare]
+    RESULT: [spine_gf_symmetry_partition] -- no inter-layer hypothesis left; remaining hypotheses: [eig_ok] (shapes of the eigen-data),
+    exact tolerances (keep0, rel0, cmp0, +-1 pass the eps tests), field.  The number type KS of the symmetry analysis is independent
+    of the number type K of the numerics.
+    HAMILTONIAN LAYER (one number type, exact zero tests): C07_H_block_diagonal is transported to EDSpec.poly_matrix
+    ([spine_H_block_diagonal]); the blocks of the model of HamiltonianPart::prepare are the restrictions of poly_matrix h
+    ([spine_hblocks_are_restrictions], from C03 hpart_prepare_is_restriction); exact per-block certificates for THOSE blocks make the
+    assembled (E, U) an exact eigen-system of poly_matrix h ([assembled_eigensystem], the list-level counterpart of C03's mathcomp
+    blocks_diagonalise_full_partial / blocks_unitary_partial; [spine_eigensystem_of_hamiltonian]); everything in one statement:
+    [spine_gf_of_hamiltonian].
+    STILL NOT PROVED (external code): that Eigen's solver returns data satisfying the certificate; it is a hypothesis, checked per
+    run by checks/C03.py up to rounding. *)
+From PV Require Import SpineBridge SpineBridgeHam SpineBridgeEA SpineBridgeEAProofs SpineBridgeMain SpineBridgeExamples.
+From PV Require Symm SymmProofs.
+
+Theorem bridge_partition_ok_from_C07 :
+  forall (KS : Type) (s0 s1 : KS) (sadd smul ssub : KS -> KS -> KS) (sopp : KS -> KS) (szero : KS -> bool),
+  ring_ok KS s0 s1 sadd smul ssub sopp szero ->
+  forall (N : nat) (ops : list (poly KS)) (c : Symm.qclass KS),
+  Forall (poly_in_range KS N) ops ->
+  Symm.sc_compute KS s0 sadd ssub sopp szero N ops = Done c ->
+  partition_ok (bridge N c).
+Proof. exact SpineBridge.symm_partition_ok. Qed.
+Print Assumptions bridge_partition_ok_from_C07.
+
+Theorem bridge_op_ok_from_C07 :
+  forall (KS : Type) (s0 s1 : KS) (sadd smul ssub : KS -> KS -> KS) (sopp : KS -> KS) (szero : KS -> bool),
+  ring_ok KS s0 s1 sadd smul ssub sopp szero -> s1 <> s0 ->
+  forall (N : nat) (ops : list (poly KS)) (c : Symm.qclass KS),
+  Forall (poly_in_range KS N) ops ->
+  Symm.sc_compute KS s0 sadd ssub sopp szero N ops = Done c ->
+  Forall (SymmProofs.uniform_shift KS s0 s1 sadd smul sopp N) ops ->
+  forall (K : Type) (NO : numops K) (fb : bool) (eps : K),
+  nre_ltb K NO (nabs K NO (n1 K NO)) eps = false -> nre_ltb K NO (nabs K NO (nopp K NO (n1 K NO))) eps = false ->
+  forall o : fop, SymmProofs.fop_in_range N (kind_of o) ->
+  op_ok K NO fb eps (bridge N c) o (bridge_pairs (list KS) N c K NO o).
+Proof. exact SpineBridge.symm_op_ok. Qed.
+Print Assumptions bridge_op_ok_from_C07.
+
+(** FieldOperator::prepare on the bridged classification (HPart's model) records the pairs the Symm model's prepare records *)
+Theorem bridge_pairs_are_symm_prepare :
+  forall (KS : Type) (s0 s1 : KS) (sadd smul ssub : KS -> KS -> KS) (sopp : KS -> KS) (szero : KS -> bool),
+  ring_ok KS s0 s1 sadd smul ssub sopp szero -> s1 <> s0 ->
+  forall (N : nat) (ops : list (poly KS)) (c : Symm.qclass KS),
+  Forall (poly_in_range KS N) ops ->
+  Symm.sc_compute KS s0 sadd ssub sopp szero N ops = Done c ->
+  Forall (SymmProofs.uniform_shift KS s0 s1 sadd smul sopp N) ops ->
+  forall (K : Type) (NO : numops K) (o : fop), SymmProofs.fop_in_range N (kind_of o) ->
+  exists f : Symm.fieldop,
+    Symm.prepare KS sadd sopp szero N c (SymmProofs.fop_poly KS s1 (kind_of o)) = Done f /\
+    Symm.fo_bimap f = Symm.fo_parts f /\
+    forall L R : nat, In (L, R) (Symm.fo_parts f) <-> In (L, R) (bridge_pairs (list KS) N c K NO o).
+Proof. exact SpineBridge.bridge_pairs_symm_prepare. Qed.
+Print Assumptions bridge_pairs_are_symm_prepare.
+
+(** THE SPINE on the partition produced by the symmetry-analysis model: no inter-layer hypothesis *)
+Theorem spine_gf_symmetry_partition :
+  forall (KS : Type) (s0 s1 : KS) (sadd smul ssub : KS -> KS -> KS) (sopp : KS -> KS) (szero : KS -> bool),
+  ring_ok KS s0 s1 sadd smul ssub sopp szero -> s1 <> s0 ->
+  forall (N : nat) (ops : list (poly KS)) (c : Symm.qclass KS),
+  Forall (poly_in_range KS N) ops ->
+  Symm.sc_compute KS s0 sadd ssub sopp szero N ops = Done c ->
+  Forall (SymmProofs.uniform_shift KS s0 s1 sadd smul sopp N) ops ->
+  forall (K : Type) (NO : numops K) (kinv : K -> K),
+  ring_theory (n0 K NO) (n1 K NO) (nadd K NO) (nmul K NO) (nsub K NO) (nopp K NO) (@eq K) ->
+  (forall a b : K, ndiv K NO a b = nmul K NO a (kinv b)) ->
+  nconj K NO (n0 K NO) = n0 K NO ->
+  forall (fb : bool) (eps : K),
+  nre_ltb K NO (nabs K NO (n1 K NO)) eps = false -> nre_ltb K NO (nabs K NO (nopp K NO (n1 K NO))) eps = false ->
+  nre_ltb K NO eps (nabs K NO (n1 K NO)) = true -> nre_ltb K NO eps (nabs K NO (nopp K NO (n1 K NO))) = true ->
+  forall reference prec : K,
+  (forall x : K, keep_entry K NO reference prec x = false -> x = n0 K NO) ->
+  forall T : tols K,
+  (forall R : K, gf_relevant K NO (t_matrix_element K T) R = false -> R = n0 K NO) ->
+  (forall a b : K, gf_compare K NO (t_compare K T) a b = false -> gf_compare K NO (t_compare K T) b a = true) ->
+  forall (ED : eigdata K) (i j : nat), i < N -> j < N ->
+  eig_ok K (bridge N c) ED ->                                          (* shapes of the per-block eigen-data *)
+  forall (fixed lenient : bool) (beta z : K) (parts : list ((nat * nat) * part_out K)),
+  spine_gf K NO fb eps reference prec T fixed lenient (bridge N c) ED beta i j = Done (WDone parts) ->
+  exists D : list (Thermal.dmpart K),
+    spine_dm K NO beta (bridge N c) ED = Done D /\
+    gf_value K NO parts z =
+    gf K NO (assembled_E K ED) (assembled_w K D)
+       (rotate K NO (Nat.pow 2 N) (assembled_U K NO (bridge N c) ED) (op_matrix K NO N (cann i)))
+       (rotate K NO (Nat.pow 2 N) (assembled_U K NO (bridge N c) ED) (op_matrix K NO N (cdag j))) z.
+Proof. exact SpineBridge.spine_gf_symmetry. Qed.
+Print Assumptions spine_gf_symmetry_partition.
+
+(** with the repaired merge-walk loops the pipeline returns on that partition whenever the density matrix does *)
+Theorem spine_gf_symmetry_partition_total :
+  forall (KS : Type) (s0 s1 : KS) (sadd smul ssub : KS -> KS -> KS) (sopp : KS -> KS) (szero : KS -> bool),
+  ring_ok KS s0 s1 sadd smul ssub sopp szero -> s1 <> s0 ->
+  forall (N : nat) (ops : list (poly KS)) (c : Symm.qclass KS),
+  Forall (poly_in_range KS N) ops ->
+  Symm.sc_compute KS s0 sadd ssub sopp szero N ops = Done c ->
+  Forall (SymmProofs.uniform_shift KS s0 s1 sadd smul sopp N) ops ->
+  forall (K : Type) (NO : numops K) (kinv : K -> K),
+  ring_theory (n0 K NO) (n1 K NO) (nadd K NO) (nmul K NO) (nsub K NO) (nopp K NO) (@eq K) ->
+  (forall a b : K, ndiv K NO a b = nmul K NO a (kinv b)) ->
+  nconj K NO (n0 K NO) = n0 K NO ->
+  forall (fb : bool) (eps : K),
+  nre_ltb K NO (nabs K NO (n1 K NO)) eps = false -> nre_ltb K NO (nabs K NO (nopp K NO (n1 K NO))) eps = false ->
+  nre_ltb K NO eps (nabs K NO (n1 K NO)) = true -> nre_ltb K NO eps (nabs K NO (nopp K NO (n1 K NO))) = true ->
+  forall reference prec : K,
+  (forall x : K, keep_entry K NO reference prec x = false -> x = n0 K NO) ->
+  forall (T : tols K) (ED : eigdata K) (i j : nat), i < N -> j < N -> eig_ok K (bridge N c) ED ->
+  forall (lenient : bool) (beta : K) (D : list (Thermal.dmpart K)),
+  spine_dm K NO beta (bridge N c) ED = Done D ->
+  exists parts, spine_gf K NO fb eps reference prec T true lenient (bridge N c) ED beta i j = Done (WDone parts).
+Proof. exact SpineBridge.spine_gf_symmetry_total. Qed.
+Print Assumptions spine_gf_symmetry_partition_total.
+
+(** ... on the operators ACCEPTED by the symmetry analysis of a Hamiltonian polynomial h: default and ignored analysis for the
+    code as it is, every mode (custom candidates with indices in range) with the repaired acceptance test [sf = true]
+    ([mode_uniform]; for custom candidates without the repair C07_single_target_refuted applies) *)
+Theorem spine_gf_symmetry_analysis :
+  forall (KS : Type) (s0 s1 : KS) (sadd smul ssub : KS -> KS -> KS) (sopp : KS -> KS) (szero : KS -> bool) (shalf : KS),
+  ring_ok KS s0 s1 sadd smul ssub sopp szero -> s1 <> s0 ->
+  forall (K : Type) (NO : numops K) (kinv : K -> K),
+  ring_theory (n0 K NO) (n1 K NO) (nadd K NO) (nmul K NO) (nsub K NO) (nopp K NO) (@eq K) ->
+  (forall a b : K, ndiv K NO a b = nmul K NO a (kinv b)) ->
+  nconj K NO (n0 K NO) = n0 K NO ->
+  forall (fb : bool) (eps : K),
+  nre_ltb K NO (nabs K NO (n1 K NO)) eps = false -> nre_ltb K NO (nabs K NO (nopp K NO (n1 K NO))) eps = false ->
+  nre_ltb K NO eps (nabs K NO (n1 K NO)) = true -> nre_ltb K NO eps (nabs K NO (nopp K NO (n1 K NO))) = true ->
+  forall reference prec : K,
+  (forall x : K, keep_entry K NO reference prec x = false -> x = n0 K NO) ->
+  forall T : tols K,
+  (forall R : K, gf_relevant K NO (t_matrix_element K T) R = false -> R = n0 K NO) ->
+  (forall a b : K, gf_compare K NO (t_compare K T) a b = false -> gf_compare K NO (t_compare K T) b a = true) ->
+  forall (fz sf : bool) (mode : Symm.symm_mode KS) (spins : list nat) (h : poly KS) (sy : Symm.symm KS),
+  mode_uniform KS sf mode (length spins) ->
+  Symm.symmetrize KS s0 s1 sadd smul ssub sopp szero shalf fz sf mode spins h = Done sy ->
+  exists c, Symm.sc_compute KS s0 sadd ssub sopp szero (length spins) (Symm.sy_ops sy) = Done c /\
+    forall (ED : eigdata K) (i j : nat), i < length spins -> j < length spins -> eig_ok K (bridge (length spins) c) ED ->
+    forall (fixed lenient : bool) (beta z : K) (parts : list ((nat * nat) * part_out K)),
+    spine_gf K NO fb eps reference prec T fixed lenient (bridge (length spins) c) ED beta i j = Done (WDone parts) ->
+    exists D, spine_dm K NO beta (bridge (length spins) c) ED = Done D /\
+      gf_value K NO parts z =
+      gf K NO (assembled_E K ED) (assembled_w K D)
+         (rotate K NO (Nat.pow 2 (length spins)) (assembled_U K NO (bridge (length spins) c) ED) (op_matrix K NO (length spins) (cann i)))
+         (rotate K NO (Nat.pow 2 (length spins)) (assembled_U K NO (bridge (length spins) c) ED) (op_matrix K NO (length spins) (cdag j))) z.
+Proof. exact SpineBridgeMain.spine_gf_symmetry_analysis. Qed.
+Print Assumptions spine_gf_symmetry_analysis.
+
+(** * The Hamiltonian layer *)
+(** any partition, any matrix H without matrix elements between blocks: exact per-block eigen-systems of the restrictions
+    assemble to an exact eigen-system of H  ([eigensystem n H U E]: H U = U diag E and U^+ U = 1, entry by entry) *)
+Theorem assembled_eigensystem :
+  forall (K : Type) (NO : numops K),
+  ring_theory (n0 K NO) (n1 K NO) (nadd K NO) (nmul K NO) (nsub K NO) (nopp K NO) (@eq K) ->
+  nconj K NO (n0 K NO) = n0 K NO ->
+  forall (S : classification) (ED : eigdata K), partition_ok S -> eig_ok K S ED ->
+  forall H : mat K, square K (state_size S) H ->
+  (forall s t : nat, s < state_size S -> t < state_size S -> block_of S s <> block_of S t -> mget K NO H s t = n0 K NO) ->
+  (forall b : nat, b < length (sc_states S) ->
+     eigensystem K NO (block_size S b) (Hblock K NO S H b) (Uof K ED b) (Eof K ED b)) ->
+  eigensystem K NO (state_size S) H (assembled_U K NO S ED) (assembled_E K ED).
+Proof. exact SpineBridgeHam.assembled_eigensystem. Qed.
+Print Assumptions assembled_eigensystem.
+
+(** the two specifications of a matrix element <t|P|s> agree (EDSpec.poly_matrix, the oracle's; PolySem.coef_poly, C05/C07's) *)
+Theorem poly_matrix_is_coef_poly :
+  forall (K : Type) (NO : numops K),
+  ring_theory (n0 K NO) (n1 K NO) (nadd K NO) (nmul K NO) (nsub K NO) (nopp K NO) (@eq K) ->
+  forall (M : nat) (p : poly K) (s t : nat), s < Nat.pow 2 M -> t < Nat.pow 2 M ->
+  mget K NO (poly_matrix K NO M p) t s =
+  coef_poly K (n0 K NO) (n1 K NO) (nadd K NO) (nmul K NO) (nopp K NO) p (state_of_nat M s) (state_of_nat M t).
+Proof. exact SpineBridgeHam.poly_matrix_coef. Qed.
+Print Assumptions poly_matrix_is_coef_poly.
+
+(** C07_H_block_diagonal for the bridged classification and the Jordan-Wigner matrix *)
+Theorem spine_H_block_diagonal :
+  forall (K : Type) (NO : numops K) (kzero : K -> bool) (khalf : K),
+  ring_theory (n0 K NO) (n1 K NO) (nadd K NO) (nmul K NO) (nsub K NO) (nopp K NO) (@eq K) ->
+  (forall x : K, kzero x = true <-> x = n0 K NO) ->
+  (forall a b : K, nmul K NO a b = n0 K NO -> a = n0 K NO \/ b = n0 K NO) ->
+  forall (fz sf : bool) (mode : Symm.symm_mode K) (spins : list nat) (h : poly K),
+  poly_in_range K (length spins) h ->
+  match mode with Symm.SymmCustom _ cands => Forall (poly_in_range K (length spins)) cands | _ => True end ->
+  forall sy : Symm.symm K,
+  Symm.symmetrize K (n0 K NO) (n1 K NO) (nadd K NO) (nmul K NO) (nsub K NO) (nopp K NO) kzero khalf fz sf mode spins h = Done sy ->
+  forall c : Symm.qclass K,
+  Symm.sc_compute K (n0 K NO) (nadd K NO) (nsub K NO) (nopp K NO) kzero (length spins) (Symm.sy_ops sy) = Done c ->
+  forall s t : nat, s < Nat.pow 2 (length spins) -> t < Nat.pow 2 (length spins) ->
+  block_of (bridge (length spins) c) s <> block_of (bridge (length spins) c) t ->
+  mget K NO (poly_matrix K NO (length spins) h) s t = n0 K NO.
+Proof. exact SpineBridgeHam.symm_H_block_diagonal. Qed.
+Print Assumptions spine_H_block_diagonal.
+
+(** C03 on that partition: the blocks the model of HamiltonianPart::prepare fills are the restrictions of poly_matrix h *)
+Theorem spine_hblocks_are_restrictions :
+  forall (K : Type) (NO : numops K) (kzero : K -> bool) (khalf : K),
+  ring_theory (n0 K NO) (n1 K NO) (nadd K NO) (nmul K NO) (nsub K NO) (nopp K NO) (@eq K) ->
+  (forall x : K, kzero x = true <-> x = n0 K NO) ->
+  (forall a b : K, nmul K NO a b = n0 K NO -> a = n0 K NO \/ b = n0 K NO) ->
+  forall (fz sf : bool) (mode : Symm.symm_mode K) (spins : list nat) (h : poly K),
+  poly_in_range K (length spins) h ->
+  match mode with Symm.SymmCustom _ cands => Forall (poly_in_range K (length spins)) cands | _ => True end ->
+  forall sy : Symm.symm K,
+  Symm.symmetrize K (n0 K NO) (n1 K NO) (nadd K NO) (nmul K NO) (nsub K NO) (nopp K NO) kzero khalf fz sf mode spins h = Done sy ->
+  forall c : Symm.qclass K,
+  Symm.sc_compute K (n0 K NO) (nadd K NO) (nsub K NO) (nopp K NO) kzero (length spins) (Symm.sy_ops sy) = Done c ->
+  forall (fb : bool) (eps : K),
+  (forall x : K, is_zero K NO eps x = true <-> x = n0 K NO) ->           (* the zero test of Operator::actRight is exact (C03) *)
+  spine_hblocks K NO fb eps (bridge (length spins) c) h =
+  Done (map (Hblock K NO (bridge (length spins) c) (poly_matrix K NO (length spins) h))
+            (seq 0 (length (sc_states (bridge (length spins) c))))).
+Proof. exact SpineBridgeHam.spine_hblocks_symmetry. Qed.
+Print Assumptions spine_hblocks_are_restrictions.
+
+Theorem spine_eigensystem_of_hamiltonian :
+  forall (K : Type) (NO : numops K) (kzero : K -> bool) (khalf : K),
+  ring_theory (n0 K NO) (n1 K NO) (nadd K NO) (nmul K NO) (nsub K NO) (nopp K NO) (@eq K) ->
+  (forall x : K, kzero x = true <-> x = n0 K NO) ->
+  (forall a b : K, nmul K NO a b = n0 K NO -> a = n0 K NO \/ b = n0 K NO) ->
+  forall (fz sf : bool) (mode : Symm.symm_mode K) (spins : list nat) (h : poly K),
+  poly_in_range K (length spins) h ->
+  match mode with Symm.SymmCustom _ cands => Forall (poly_in_range K (length spins)) cands | _ => True end ->
+  forall sy : Symm.symm K,
+  Symm.symmetrize K (n0 K NO) (n1 K NO) (nadd K NO) (nmul K NO) (nsub K NO) (nopp K NO) kzero khalf fz sf mode spins h = Done sy ->
+  forall c : Symm.qclass K,
+  Symm.sc_compute K (n0 K NO) (nadd K NO) (nsub K NO) (nopp K NO) kzero (length spins) (Symm.sy_ops sy) = Done c ->
+  forall (fb : bool) (eps : K),
+  (forall x : K, is_zero K NO eps x = true <-> x = n0 K NO) ->
+  nconj K NO (n0 K NO) = n0 K NO ->
+  forall (ED : eigdata K) (Hs : list (mat K)),
+  eig_ok K (bridge (length spins) c) ED ->
+  spine_hblocks K NO fb eps (bridge (length spins) c) h = Done Hs ->
+  (forall b : nat, b < length (sc_states (bridge (length spins) c)) ->
+     eigensystem K NO (block_size (bridge (length spins) c) b) (nth b Hs []) (Uof K ED b) (Eof K ED b)) ->
+  eigensystem K NO (Nat.pow 2 (length spins)) (poly_matrix K NO (length spins) h)
+              (assembled_U K NO (bridge (length spins) c) ED) (assembled_E K ED).
+Proof. exact SpineBridgeHam.spine_symmetry_eigensystem. Qed.
+Print Assumptions spine_eigensystem_of_hamiltonian.
+
+(** EVERYTHING IN ONE STATEMENT (one number type: a field with exact zero tests): Hamiltonian polynomial -> symmetry analysis ->
+    blocks -> certified eigen-data -> G_ij(z) = EDSpec.gf of an exact eigen-decomposition of the Jordan-Wigner matrix of h *)
+Theorem spine_gf_of_hamiltonian :
+  forall (K : Type) (NO : numops K) (kinv : K -> K),
+  field_theory (n0 K NO) (n1 K NO) (nadd K NO) (nmul K NO) (nsub K NO) (nopp K NO) (ndiv K NO) kinv (@eq K) ->
+  forall (kzero : K -> bool) (khalf : K),
+  (forall x : K, kzero x = true <-> x = n0 K NO) ->
+  nconj K NO (n0 K NO) = n0 K NO ->
+  forall (fb : bool) (eps : K),
+  nre_ltb K NO (nabs K NO (n1 K NO)) eps = false -> nre_ltb K NO (nabs K NO (nopp K NO (n1 K NO))) eps = false ->
+  nre_ltb K NO eps (nabs K NO (n1 K NO)) = true -> nre_ltb K NO eps (nabs K NO (nopp K NO (n1 K NO))) = true ->
+  (forall x : K, is_zero K NO eps x = true <-> x = n0 K NO) ->
+  forall reference prec : K,
+  (forall x : K, keep_entry K NO reference prec x = false -> x = n0 K NO) ->
+  forall T : tols K,
+  (forall R : K, gf_relevant K NO (t_matrix_element K T) R = false -> R = n0 K NO) ->
+  (forall a b : K, gf_compare K NO (t_compare K T) a b = false -> gf_compare K NO (t_compare K T) b a = true) ->
+  forall (fz sf : bool) (mode : Symm.symm_mode K) (spins : list nat) (h : poly K) (sy : Symm.symm K),
+  poly_in_range K (length spins) h ->
+  mode_uniform K sf mode (length spins) ->
+  Symm.symmetrize K (n0 K NO) (n1 K NO) (nadd K NO) (nmul K NO) (nsub K NO) (nopp K NO) kzero khalf fz sf mode spins h = Done sy ->
+  exists c Hs,
+    Symm.sc_compute K (n0 K NO) (nadd K NO) (nsub K NO) (nopp K NO) kzero (length spins) (Symm.sy_ops sy) = Done c /\
+    spine_hblocks K NO fb eps (bridge (length spins) c) h = Done Hs /\
+    forall ED : eigdata K, eig_ok K (bridge (length spins) c) ED ->
+    (forall b, b < length (sc_states (bridge (length spins) c)) ->
+       eigensystem K NO (block_size (bridge (length spins) c) b) (nth b Hs []) (Uof K ED b) (Eof K ED b)) ->
+    eigensystem K NO (Nat.pow 2 (length spins)) (poly_matrix K NO (length spins) h)
+                (assembled_U K NO (bridge (length spins) c) ED) (assembled_E K ED) /\
+    forall i j : nat, i < length spins -> j < length spins ->
+    forall (fixed lenient : bool) (beta z : K) (parts : list ((nat * nat) * part_out K)),
+    spine_gf K NO fb eps reference prec T fixed lenient (bridge (length spins) c) ED beta i j = Done (WDone parts) ->
+    exists D, spine_dm K NO beta (bridge (length spins) c) ED = Done D /\
+      gf_value K NO parts z =
+      gf K NO (assembled_E K ED) (assembled_w K D)
+         (rotate K NO (Nat.pow 2 (length spins)) (assembled_U K NO (bridge (length spins) c) ED) (op_matrix K NO (length spins) (cann i)))
+         (rotate K NO (Nat.pow 2 (length spins)) (assembled_U K NO (bridge (length spins) c) ED) (op_matrix K NO (length spins) (cdag j))) z.
+Proof. exact SpineBridgeMain.spine_gf_of_hamiltonian. Qed.
+Print Assumptions spine_gf_of_hamiltonian.
+
+(** * Stage 3: the same spine for the ensemble average <c^+_i c_j> (model pipeline PV.SpineBridgeEA.spine_ea: Thermal.dm_compute,
+    HPart.fo_prepare / fop_dense for the quadratic operator, Thermal.ea_prepare): the value is Tr(rho U^+ c^+_i c_j U) on the
+    full Fock space, and the pipeline always returns when the density matrix does *)
+Theorem spine_ea_partition :
+  forall (K : Type) (NO : numops K),
+  ring_theory (n0 K NO) (n1 K NO) (nadd K NO) (nmul K NO) (nsub K NO) (nopp K NO) (@eq K) ->
+  nconj K NO (n0 K NO) = n0 K NO ->
+  forall (fb : bool) (eps : K),
+  nre_ltb K NO (nabs K NO (n1 K NO)) eps = false -> nre_ltb K NO (nabs K NO (nopp K NO (n1 K NO))) eps = false ->
+  nre_ltb K NO eps (nabs K NO (n1 K NO)) = true -> nre_ltb K NO eps (nabs K NO (nopp K NO (n1 K NO))) = true ->
+  forall reference prec : K,
+  (forall x : K, keep_entry K NO reference prec x = false -> x = n0 K NO) ->
+  forall (S : classification) (ED : eigdata K) (i j : nat) (prs : list (nat * nat)),
+  partition_ok S -> eig_ok K S ED -> op_ok K NO fb eps S (FQuad i j) prs ->
+  forall (beta : K) (D : list (Thermal.dmpart K)), spine_dm K NO beta S ED = Done D ->
+  spine_ea K NO fb eps reference prec S ED beta i j =
+  Done (trace_rho K NO (assembled_w K D)
+          (rotate K NO (state_size S) (assembled_U K NO S ED) (poly_matrix K NO (sc_M S) (p_n_offdiag K (n1 K NO) i j)))).
+Proof. exact SpineBridgeEAProofs.spine_ea_partition. Qed.
+Print Assumptions spine_ea_partition.
+
+Theorem spine_ea_symmetry_partition :
+  forall (KS : Type) (s0 s1 : KS) (sadd smul ssub : KS -> KS -> KS) (sopp : KS -> KS) (szero : KS -> bool),
+  ring_ok KS s0 s1 sadd smul ssub sopp szero -> s1 <> s0 ->
+  forall (N : nat) (ops : list (poly KS)) (c : Symm.qclass KS),
+  Forall (poly_in_range KS N) ops ->
+  Symm.sc_compute KS s0 sadd ssub sopp szero N ops = Done c ->
+  Forall (SymmProofs.uniform_shift KS s0 s1 sadd smul sopp N) ops ->
+  forall (K : Type) (NO : numops K),
+  ring_theory (n0 K NO) (n1 K NO) (nadd K NO) (nmul K NO) (nsub K NO) (nopp K NO) (@eq K) ->
+  nconj K NO (n0 K NO) = n0 K NO ->
+  forall (fb : bool) (eps : K),
+  nre_ltb K NO (nabs K NO (n1 K NO)) eps = false -> nre_ltb K NO (nabs K NO (nopp K NO (n1 K NO))) eps = false ->
+  nre_ltb K NO eps (nabs K NO (n1 K NO)) = true -> nre_ltb K NO eps (nabs K NO (nopp K NO (n1 K NO))) = true ->
+  forall reference prec : K,
+  (forall x : K, keep_entry K NO reference prec x = false -> x = n0 K NO) ->
+  forall (ED : eigdata K) (i j : nat), i < N -> j < N -> eig_ok K (bridge N c) ED ->
+  forall (beta : K) (D : list (Thermal.dmpart K)), spine_dm K NO beta (bridge N c) ED = Done D ->
+  spine_ea K NO fb eps reference prec (bridge N c) ED beta i j =
+  Done (trace_rho K NO (assembled_w K D)
+          (rotate K NO (Nat.pow 2 N) (assembled_U K NO (bridge N c) ED) (poly_matrix K NO N (p_n_offdiag K (n1 K NO) i j)))).
+Proof. exact SpineBridgeEAProofs.spine_ea_symmetry. Qed.
+Print Assumptions spine_ea_symmetry_partition.
+
+(** * Non-vacuity: the Hubbard atom, partition PRODUCED BY THE SYMMETRY-ANALYSIS MODEL (default mode: N and S_z accepted) *)
+Theorem hubbard_atom_symmetry_partition :
+  exists sy c, hub_sy_run = Done sy /\ Symm.sy_flags sy = [true; true] /\
+    qc_sc_compute 2 (Symm.sy_ops sy) = Done c /\
+    Symm.sc_blocks c = [[0]; [1]; [2]; [3]] /\ bridge 2 c = S4.
+Proof. exact SpineBridgeExamples.hub_symmetry_partition. Qed.
+Print Assumptions hubbard_atom_symmetry_partition.
+
+Theorem hubbard_atom_symmetry_spine :
+  exists sy c parts D,
+    hub_sy_run = Done sy /\ qc_sc_compute 2 (Symm.sy_ops sy) = Done c /\
+    hub_run_symm = Done (WDone parts) /\ spine_dm Qcanon.Qc QcS (n1 _ QcS) (bridge 2 c) ED4 = Done D /\
+    gf_value Qcanon.Qc QcS parts hub_z =
+    gf Qcanon.Qc QcS (assembled_E Qcanon.Qc ED4) (assembled_w Qcanon.Qc D)
+       (rotate Qcanon.Qc QcS 4 (assembled_U Qcanon.Qc QcS (bridge 2 c) ED4) (op_matrix Qcanon.Qc QcS 2 (cann 0)))
+       (rotate Qcanon.Qc QcS 4 (assembled_U Qcanon.Qc QcS (bridge 2 c) ED4) (op_matrix Qcanon.Qc QcS 2 (cdag 0))) hub_z.
+Proof. exact SpineBridgeExamples.hub_spine_symmetry. Qed.
+Print Assumptions hubbard_atom_symmetry_spine.
+
+Theorem hubbard_atom_symmetry_value :
+  hub_value_symm = Qcanon.Q2Qc (QArith_base.Qmake 2%Z 51%positive) /\ hub_value_symm <> n0 _ QcS /\
+  match hub_run_symm with Done (WDone parts) => map fst parts = [(0, 1); (2, 3)] | _ => False end.
+Proof. exact SpineBridgeExamples.hub_value_symm_nonzero. Qed.
+Print Assumptions hubbard_atom_symmetry_value.
+
+Theorem hubbard_atom_symmetry_eigensystem :
+  exists c, hub_class_run = Done c /\
+    spine_hblocks Qcanon.Qc QcS true (n0 _ QcS) (bridge 2 c) hub_h =
+      Done (map (Hblock Qcanon.Qc QcS (bridge 2 c) (poly_matrix Qcanon.Qc QcS 2 hub_h)) (seq 0 4)) /\
+    (forall b, b < 4 ->
+       eigensystem Qcanon.Qc QcS (block_size (bridge 2 c) b) (Hblock Qcanon.Qc QcS (bridge 2 c) (poly_matrix Qcanon.Qc QcS 2 hub_h) b)
+                   (Uof Qcanon.Qc ED4 b) (Eof Qcanon.Qc ED4 b)) /\
+    eigensystem Qcanon.Qc QcS 4 (poly_matrix Qcanon.Qc QcS 2 hub_h) (assembled_U Qcanon.Qc QcS (bridge 2 c) ED4) (assembled_E Qcanon.Qc ED4) /\
+    assembled_E Qcanon.Qc ED4 = hub_E /\ assembled_U Qcanon.Qc QcS (bridge 2 c) ED4 = hub_U.
+Proof. exact SpineBridgeExamples.hub_eigensystem_symmetry. Qed.
+Print Assumptions hubbard_atom_symmetry_eigensystem.
+
+Theorem hubbard_atom_symmetry_average :
+  exists c D, hub_class_run = Done c /\ spine_dm Qcanon.Qc QcS (n1 _ QcS) (bridge 2 c) ED4 = Done D /\
+    hub_ea_run = Done (trace_rho Qcanon.Qc QcS (assembled_w Qcanon.Qc D)
+                         (rotate Qcanon.Qc QcS 4 (assembled_U Qcanon.Qc QcS (bridge 2 c) ED4)
+                            (poly_matrix Qcanon.Qc QcS 2 (p_n_offdiag Qcanon.Qc (n1 _ QcS) 0 0)))) /\
+    hub_ea_run = Done (Qcanon.Q2Qc (QArith_base.Qmake 8%Z 17%positive)).
+Proof. exact SpineBridgeExamples.hub_ea_symmetry. Qed.
+Print Assumptions hubbard_atom_symmetry_average.
+
+(** every hypothesis of [spine_gf_of_hamiltonian] instantiated (rationals with the discrete absolute value, eps = 1/2) *)
+Theorem hubbard_atom_gf_of_hamiltonian :
+  exists c Hs parts D,
+    hub_class_run = Done c /\ spine_hblocks Qcanon.Qc QcD true eps_half (bridge 2 c) hub_h = Done Hs /\
+    (forall b, b < 4 -> eigensystem Qcanon.Qc QcD (block_size (bridge 2 c) b) (nth b Hs []) (Uof Qcanon.Qc ED4 b) (Eof Qcanon.Qc ED4 b)) /\
+    eigensystem Qcanon.Qc QcD 4 (poly_matrix Qcanon.Qc QcD 2 hub_h) (assembled_U Qcanon.Qc QcD (bridge 2 c) ED4) (assembled_E Qcanon.Qc ED4) /\
+    hub_run_D c = Done (WDone parts) /\ spine_dm Qcanon.Qc QcD (n1 _ QcD) (bridge 2 c) ED4 = Done D /\
+    gf_value Qcanon.Qc QcD parts hub_z =
+    gf Qcanon.Qc QcD (assembled_E Qcanon.Qc ED4) (assembled_w Qcanon.Qc D)
+       (rotate Qcanon.Qc QcD 4 (assembled_U Qcanon.Qc QcD (bridge 2 c) ED4) (op_matrix Qcanon.Qc QcD 2 (cann 0)))
+       (rotate Qcanon.Qc QcD 4 (assembled_U Qcanon.Qc QcD (bridge 2 c) ED4) (op_matrix Qcanon.Qc QcD 2 (cdag 0))) hub_z /\
+    gf_value Qcanon.Qc QcD parts hub_z = Qcanon.Q2Qc (QArith_base.Qmake 2%Z 51%positive).
+Proof. exact SpineBridgeExamples.hub_gf_of_hamiltonian. Qed.
+Print Assumptions hubbard_atom_gf_of_hamiltonian.
